@@ -1,5 +1,6 @@
 import Psa.EvalProofs
 import Psa.C03Relax
+import Psa.SubsetOrder
 import Psa.Examples
 /-! # C03 — restricted ⇒ baseline ⇒ privileged, at every version -/
 namespace PSA.Props
@@ -38,6 +39,30 @@ theorem C03_relaxing_level (relax : Bool) (l₁ l₂ : Level) (v : Ver) (p : Pod
     | exact C03_order_any_switch relax v p hv hp h
     | (simp [compareLevels] at hl)
 
+/-- what an evaluator built from a subset of the shipped checks (`policy.NewEvaluator` on some of `DefaultChecks()`) computes -/
+def evalSubset (keep : Check RevId → Bool) (relax : Bool) (lv : LevelVersion) (p : Pod) : List CheckOut :=
+  ((populate (shipped.filter keep)).evaluate lv.level lv.version).map (fun r => run Generated.tables relax r p)
+
+/-- **the order holds for every evaluator built from a subset of the shipped checks**, at every requestable version, with the
+    switch in either position: the resolution rule (C04) keeps a baseline check at restricted unless a restricted check that is
+    present overrides it, and each of the five override edges of the shipped table is sound for API-valid pods -/
+theorem C03_order_every_subset (keep : Check RevId → Bool) (relax : Bool) (v : Ver) (p : Pod) (hv : v.requestable) (hp : ApiValid p)
+    (h : allowedAll (evalSubset keep relax ⟨.restricted, v⟩ p) = true) :
+    allowedAll (evalSubset keep relax ⟨.baseline, v⟩ p) = true :=
+  PSA.C03_order_subset _ C03_tables_ok relax keep v p hv ((apiValid_tables _ C03_windows_name p).mp hp) h
+
+/-- the edges that argument rests on are all the override edges there are (re-derived from the regenerated metadata) -/
+theorem C03_edges_complete : ∀ V, V ≤ 32 → edgesOK V = true := shipped_edgesOK
+
+/-- non-vacuity: the evaluator built from the baseline checks and `seccompProfile_restricted` alone allows, at restricted, a pod
+    that the full evaluator denies there — subsets are different evaluators — and the pod is allowed at its baseline -/
+example :
+    let keep : Check RevId → Bool := fun c => c.level == .baseline || c.id == b!"seccompProfile_restricted"
+    let p : Pod := { containers := [{ name := b!"c", sc := some { seccompType := some b!"RuntimeDefault" } }] }
+    ApiValid p ∧ allowedAll (evalSubset keep false ⟨.restricted, .latest⟩ p) = true ∧
+    (aggregate (evalPodModel Generated.tables false ⟨.restricted, .latest⟩ p)).allowed = false ∧
+    allowedAll (evalSubset keep false ⟨.baseline, .latest⟩ p) = true := by decide +kernel
+
 /-- every pod is allowed at privileged: nothing runs -/
 theorem C03_privileged (relax : Bool) (v : Ver) (p : Pod) :
     evalPodModel Generated.tables relax ⟨.privileged, v⟩ p = [] ∧
@@ -63,5 +88,7 @@ example :
 #print axioms C03_order
 #print axioms C03_order_any_switch
 #print axioms C03_relaxing_level
+#print axioms C03_order_every_subset
+#print axioms C03_edges_complete
 #print axioms C03_privileged
 end PSA.Props
